@@ -45,6 +45,67 @@ def xta_models(rng, n):
     return out
 
 
+def process_set_models(rng, n):
+    """Models whose system line lists partial instances that still have free (bounded) parameters - sets of processes -
+    through chains of instantiations, next to closed instances and the template itself; as XTA and as XML."""
+    from .. import xmlgen
+    out = []
+    btypes = ["id_t", "int[0,1]", "sc_t", "int[1,N]"]
+    for i in range(n):
+        r = rng
+        np_ = r.randint(1, 3)
+        params = []
+        for k in range(np_):
+            if r.random() < 0.6:
+                params.append(("const " + r.choice(btypes), "p%d" % k, True))
+            else:
+                params.append((r.choice(["const int", "int &", "const bool"]), "p%d" % k, False))
+        tparams = ", ".join("%s %s" % (t, nm) for t, nm, _ in params)
+
+        def arg(t):
+            return "gv" if t == "int &" else ("true" if t == "const bool" else str(r.randint(0, 1)))
+        # first level: binds every unbounded parameter, forwards some of the bounded ones through formals of its own
+        formals, args = [], []
+        for t, nm, bounded in params:
+            if bounded and r.random() < 0.7:
+                fn = r.choice([nm, "q" + nm[1:], "j%d" % len(formals)])
+                if fn in [f for _, f in formals]:
+                    fn = "j%d" % len(formals)
+                formals.append((t, fn))
+                args.append(fn)
+            else:
+                args.append(arg(t) if not bounded else ("1" if "1,N" in t or "sc_t" not in t else None))
+        if None in args:            # a scalar parameter can only be forwarded
+            for k, a in enumerate(args):
+                if a is None:
+                    formals.append((params[k][0], "s%d" % k))
+                    args[k] = "s%d" % k
+        if r.random() < 0.3:
+            r.shuffle(formals)
+        lines = ["Q(%s) = T(%s);" % (", ".join("%s %s" % f for f in formals), ", ".join(args))]
+        listed = ["Q"]
+        if formals and r.random() < 0.5:
+            # second level: forwards or binds the formals of the first
+            f2, a2 = [], []
+            for t, fn in formals:
+                if r.random() < 0.6 or "sc_t" in t:
+                    f2.append((t, "z" + fn))
+                    a2.append("z" + fn)
+                else:
+                    a2.append("1")
+            lines.append("R(%s) = Q(%s);" % (", ".join("%s %s" % f for f in f2), ", ".join(a2)))
+            listed = r.choice([["R"], ["Q", "R"], ["R", "Q"]])
+        if all(b for _, _, b in params) and r.random() < 0.4:
+            listed.append("T")
+        decl = "const int N = 2; typedef int[0,1] id_t; typedef scalar[2] sc_t; int gv;"
+        system = "\n".join(lines) + "\nsystem %s;" % r.choice([", ".join(listed), " < ".join(listed)])
+        if r.random() < 0.5:
+            out.append(("process-set:xta", "xta", "%s\nprocess T(%s) { state A; init A; }\n%s\n" % (decl, tparams, system)))
+        else:
+            out.append(("process-set:xml", "xml", xmlgen.simple_model(decl=decl, params=tparams, tname="T", system=system)))
+    return out
+
+
 def run(rep, tier, seed):
     rng = random.Random(seed * 1000003 + 8)
     quick = tier == "quick"
@@ -57,6 +118,8 @@ def run(rep, tier, seed):
         cases.append((tag, Case("h%d" % i, [Step("parse_doc", 0, entry, newxta, 0, xml)], timeout=60)))
     for i, (tag, xta) in enumerate(xta_models(rng, n // 4)):
         cases.append((tag, Case("x%d" % i, [Step("parse_doc", 0, rng.choice(["xta_buffer", "xta_file"]), 1, 0, xta)], timeout=60)))
+    for i, (tag, kind, text) in enumerate(process_set_models(rng, n // 10)):
+        cases.append((tag, Case("s%d" % i, [Step("parse_doc", 0, "xta_buffer" if kind == "xta" else "xml_buffer", 1, 0, text)], timeout=60)))
     res = run_cases([c for _, c in cases])
     totals = {}
     outcome = {"normal-clean": 0, "normal-with-errors": 0, "exception": 0}
